@@ -6,7 +6,18 @@ verus! {
 //       attached to the first definition of its last name); no two reported cycles have the same de-duplication key;
 //       the `while let Some(..) = stack.pop()` loop terminates (lexicographic measure dfs_a, dfs_b).
 //       resolver.rs detect_fixture_cycles_in_file == the cached cycles filtered by file, order preserved.
-//   proved library: prelude/cycles_spec.rs;  assumed: prelude/cycles_std.rs, prelude/hashmap_ext.rs (+ the shims)
+//   proved on the way: the `if rec_stack.contains(&current)` block of the first visit (resolver.rs ~1549-1571) is
+//       UNREACHABLE (a node is never pushed while it is on the recursion set; `assert(false)` there), and the
+//       `.unwrap_or(0)` fallback of `position` in the live cycle block is never taken (the dependency is on the path).
+//   L2: lemma_C16_* below;  proved library: prelude/cycles_spec.rs;
+//   assumed: prelude/cycles_std.rs (position, to_vec/cloned/sort/join wrappers, FixtureCycle::clone), prelude/hashmap_ext.rs
+//       (HashMap::keys = some duplicate-free enumeration) + the shims every unit uses
+//   source rewrites: the function-local `use std::collections::HashMap;` is dropped (T9: `HashMap` then names the prelude
+//       shim), `f == dep` -> `*f == *dep` (T9), `.cloned( .sort( .join( .to_vec(` -> wrappers (T5), for-`continue` (T11)
+//   anchors: `position:last` / negative ordinals (`@after cycle_path -4`) count from the END of the body, so that the
+//       contract text stays attached to the live cycle block when the dead one is removed or a call argument changes
+//   NOT claimed: completeness, and "which cycles are reported does not vary between runs" — it does vary (the DFS roots
+//       come in the hash order of a std HashMap, RandomState per process): see canary_C16_every_cycle_reported
 global size_of usize == 8;  // A6: 64-bit target
 pub mod pre {
 use super::*;
@@ -19,19 +30,75 @@ use super::*;
 //@include prelude/atomic.rs
 //@include prelude/arc.rs
 //@include prelude/dbview.rs
+//@include prelude/hof.rs
+//@include prelude/iter_ext.rs
 //@include prelude/cycles_std.rs
 //@include prelude/cycles_spec.rs
 } // mod pre
 use pre::*;
 
-broadcast use {vstd::std_specs::iter::filter_postcondition};
 
 //@dbstruct_arc definitions file_cache available_fixtures_cache cycle_cache definitions_version
 
+// ---- the memo layer's vocabulary (copied from units/memo.rs, where detect_fixture_cycles is proved against it;
+// //@stub takes the contract text from there)
+pub struct QView { pub defs: Map<Seq<char>, Seq<DefV>>, pub texts: Map<PV, Seq<char>> }
+/// what compute_fixture_cycles returns, abstractly (any function of the query view)
+pub uninterp spec fn op_cycles(q: QView) -> Seq<FixtureCycle>;
+
+/// the per-file filter on views
+pub open spec fn in_file_v(f: PV) -> spec_fn(CycV) -> bool { |c: CycV| c.fixture.file == f }
+pub open spec fn in_file_ref<'a>(f: PV) -> spec_fn(&'a FixtureCycle) -> bool { |c: &'a FixtureCycle| pbv(&c.fixture.file_path) == f }
+pub open spec fn cyv_ref<'a>() -> spec_fn(&'a FixtureCycle) -> CycV { |c: &'a FixtureCycle| cyv(c) }
+
 pub mod resolver { // mirrors crate::fixtures::resolver so that `super::types::…` paths in the source resolve
 use super::*;
+broadcast use {vstd::std_specs::iter::filter_postcondition, lemma_take_filter_index_is_filter};
 impl FixtureDatabase {
     pub open spec fn defs(&self) -> Map<Seq<char>, Seq<DefV>> { defs_view(self.definitions.m()) }
+    pub open spec fn q(&self) -> QView {
+        QView { defs: defs_view(self.definitions.m()), texts: self.file_cache.m().map_values(|a: Arc<String>| (*a)@) }
+    }
+    pub open spec fn version(&self) -> u64 { self.definitions_version.v }
+    pub open spec fn cycle_cache_ok(&self) -> bool {
+        self.cycle_cache.m().contains_key(()) && self.cycle_cache.m()[()].0 == self.version()
+            ==> (*self.cycle_cache.m()[()].1)@ == op_cycles(self.q())
+    }
+
+//@stub memo detect_fixture_cycles
+
+/*@ extract src/fixtures/resolver.rs detect_fixture_cycles_in_file
+@tags C16 C08
+@recv mut
+@ret r
+@rename cloned vp_cloned
+@closure 1 |cycle: &&FixtureCycle| -> (b: bool) ensures b == (pbv(&cycle.fixture.file_path) == pv(file_path))
+@sig
+    requires old(self).cycle_cache_ok(),
+    ensures
+        // the cached (== recomputed, unit memo) cycles whose fixture is defined in the file, order preserved
+        cyvs(r@) =~= cyvs(op_cycles(old(self).q())).filter(in_file_v(pv(file_path))),
+        final(self).cycle_cache_ok(), final(self).q() == old(self).q(), final(self).version() == old(self).version(),
+@after all_cycles 1
+    proof {
+        let s = (*all_cycles)@.as_ref();
+        let fp = pv(file_path);
+        lemma_filter_map_commute(s, cyv_ref(), in_file_ref(fp), in_file_v(fp));
+        assert(s.map_values(cyv_ref()) =~= cyvs((*all_cycles)@));
+        let kept = s.filter(in_file_ref(fp));
+    }
+@*/
+
+/*@ extract src/fixtures/resolver.rs detect_fixture_cycles_in_file
+@as canary_in_file_unfiltered
+@recv mut
+@ret r
+@rename cloned vp_cloned
+@closure 1 |cycle: &&FixtureCycle| -> (b: bool) ensures b == (pbv(&cycle.fixture.file_path) == pv(file_path))
+@sig
+    requires old(self).cycle_cache_ok(),
+    ensures cyvs(r@) =~= cyvs(op_cycles(old(self).q())),
+@*/
 
 /*@ extract src/fixtures/resolver.rs compute_fixture_cycles
 @tags C16 C12 C08
@@ -144,7 +211,7 @@ impl FixtureDatabase {
         assert(g[e.node] == strs_v(deps@));
         assert(dep_v == dep@);
     }
-@after dep 3
+@after cycle_start_idx -2
     proof {
         // the dependency is on the recursion set, hence on the current path: `position` finds it
         lemma_cycle(defs, g, sv0, rec0, vis0);
@@ -154,7 +221,7 @@ impl FixtureDatabase {
         assert(cycle_start_idx < path@.len() && path@[cycle_start_idx as int]@ == dep@);
         assert(strs_v(path@.subrange(cycle_start_idx as int, path@.len() as int)) =~= cp.subrange(cycle_start_idx as int, cp.len() as int));
     }
-@after dep 4
+@after cycle_path -4
     let ghost cpv = strs_v(cycle_path@);
     proof {
         let i = cycle_start_idx as int;
@@ -163,7 +230,7 @@ impl FixtureDatabase {
         assert(is_closed_chain(defs, cpv));
         assert(strs_v(cycle_path@.subrange(0, cycle_path@.len() - 1)) =~= cpv.drop_last());
     }
-@after dep 5
+@after fixture_defs -1
     proof {
         assert(cycle_key_str@ == cyc_key(cpv));
         assert(cpv.last() == dep@);
@@ -181,7 +248,7 @@ impl FixtureDatabase {
         gsv = next_sv(sv0, dep_v, explore);
         assert(evs(stack@) =~= gsv);
     }
-@after rec_stack 6
+@after visited -1
     proof {
         lemma_step_pop(defs, sv0, rec0, vis0, vis0.insert(e.node));
         lemma_meas_done(g, sv0, rec0, vis0);
@@ -191,5 +258,93 @@ impl FixtureDatabase {
 }
 } // mod resolver
 use resolver::*;
+
+// ---- L2: the statements of the property text --------------------------------------------------------------
+/// C16 (cycle part): every reported path is a real closed dependency chain — at least two entries, first == last,
+/// every consecutive pair (a, b): b is a parameter of the first registered definition of a and b is a known fixture
+/// name — and the cycle is attached to the first registered definition of that first/last name.
+//@tags C16
+pub proof fn lemma_C16_reported_cycle_is_real(defs: Map<Seq<char>, Seq<DefV>>, cs: Seq<FixtureCycle>, k: int)
+    requires cycles_ok(defs, cs), 0 <= k < cs.len(),
+    ensures ({
+        let p = strs_v(cs[k].cycle_path@);
+        &&& p.len() >= 2 && p[0] == p[p.len() - 1]
+        &&& forall|i: int| 0 <= i < p.len() - 1 ==> defs.contains_key(#[trigger] p[i]) && defs[p[i]].len() > 0
+                && defs[p[i]][0].dependencies.contains(p[i + 1]) && defs.contains_key(p[i + 1])
+        &&& defs.contains_key(p[0]) && defs[p[0]].len() > 0 && dv(&cs[k].fixture) == defs[p[0]][0]
+    }),
+{
+    reveal(cycles_ok); reveal(is_chain);
+    assert(cycle_ok(defs, cyv(&cs[k])));
+}
+/// C16 (cycle part): a fixture whose exploration has nothing to do with the closing edge cannot appear on a reported
+/// path — one non-edge anywhere on the path contradicts the contract (this is what the shared-path refactoring
+/// C16-1 produces: `client -> store -> cfg -> session -> clock -> client` with cfg not requesting session).
+//@tags C16
+pub proof fn lemma_C16_no_foreign_node_on_path(defs: Map<Seq<char>, Seq<DefV>>, cs: Seq<FixtureCycle>, k: int, i: int)
+    requires cycles_ok(defs, cs), 0 <= k < cs.len(), 0 <= i < strs_v(cs[k].cycle_path@).len() - 1,
+    ensures edge(defs, strs_v(cs[k].cycle_path@)[i], strs_v(cs[k].cycle_path@)[i + 1]),
+{
+    lemma_C16_reported_cycle_is_real(defs, cs, k);
+}
+/// C16: no cycle is reported twice — two reported cycles never consist of the same names (with multiplicity, the
+/// repeated last name not counted).  Only as good as the key: `sort` + `join(",")` modelled as functions of the contents
+/// (prelude/cycles_std.rs K1, K2); two cycles over the same names in a different order share the key, so only the first
+/// one found is reported.
+//@tags C16
+pub proof fn lemma_C16_no_cycle_reported_twice(cs: Seq<FixtureCycle>, seen: Set<Seq<char>>, i: int, j: int)
+    requires keys_ok(cs, seen), 0 <= i < j < cs.len(),
+    ensures strs_v(cs[i].cycle_path@).drop_last().to_multiset() != strs_v(cs[j].cycle_path@).drop_last().to_multiset(),
+{
+    reveal(keys_ok);
+    assert(cyc_key(cyv(&cs[i]).path) != cyc_key(cyv(&cs[j]).path));
+}
+/// F-16b, stated on the contract: G is built from the FIRST registered definition of every name only, so the override
+/// pattern `def cli(cli)` (a child conftest overriding and requesting the parent's fixture) IS a closed chain of G
+/// whenever the overriding definition happens to be registered first — the contract accepts that report.
+//@tags C16
+pub proof fn lemma_F16b_override_is_self_loop_of_G(defs: Map<Seq<char>, Seq<DefV>>, n: Seq<char>)
+    requires defs.contains_key(n), defs[n].len() > 0, defs[n][0].dependencies.contains(n),
+    ensures is_closed_chain(defs, seq![n, n]),
+{
+    reveal(is_chain);
+    assert(edge(defs, n, n));
+}
+
+// ---- vacuity guards (must FAIL) -----------------------------------------------------------------------------
+/// the loop invariant is satisfiable
+pub proof fn canary_dfs_inv_unsatisfiable(defs: Map<Seq<char>, Seq<DefV>>, sv: Seq<EntV>, rec: Set<Seq<char>>, vis: Set<Seq<char>>)
+    requires dfs_inv(defs, sv, rec, vis), sv.len() > 0,
+    ensures false,
+{
+    reveal(dfs_inv); reveal(is_chain);
+}
+/// the assumed key axioms are consistent with the proved library
+pub proof fn canary_cycles_axioms_inconsistent()
+    ensures false,
+{
+    axiom_sorted_names_perm(vstd::multiset::Multiset::<Seq<char>>::empty());
+    lemma_tables_empty(Map::empty());
+}
+/// the contract rejects the output of the shared-path refactoring (C16-1): a path with one non-edge is not `cycles_ok`
+pub proof fn canary_C16_stale_path_accepted(defs: Map<Seq<char>, Seq<DefV>>, cs: Seq<FixtureCycle>)
+    requires cs.len() == 1,
+        strs_v(cs[0].cycle_path@) == seq!["client"@, "store"@, "cfg"@, "session"@, "clock"@, "client"@],
+        !edge(defs, "cfg"@, "session"@),
+    ensures cycles_ok(defs, cs),
+{
+    reveal(cycles_ok); reveal(is_chain);
+}
+/// KNOWN INCOMPLETENESS (not claimed): the contract does not say that every closed chain of G is reported.  The code
+/// does not do it either: (1) a dependency that is already `visited` is never re-entered (`else if !visited.contains(dep)`),
+/// so with a -> b -> a and a -> c -> b only [a, b, a] is reported when the DFS starts at a (the chain a, c, b, a is not),
+/// while a start at c reports both — which cycles are reported depends on the hash order of `dep_graph.keys()`;
+/// (2) cycles over the same names share the key; (3) G uses `first()` only (F-16b).
+pub proof fn canary_C16_every_cycle_reported(defs: Map<Seq<char>, Seq<DefV>>, cs: Seq<FixtureCycle>, seen: Set<Seq<char>>, p: Seq<Seq<char>>)
+    requires cycles_ok(defs, cs), keys_ok(cs, seen), is_closed_chain(defs, p),
+    ensures exists|k: int| 0 <= k < cs.len() && strs_v(#[trigger] cs[k].cycle_path@) == p,
+{
+    reveal(cycles_ok); reveal(keys_ok); reveal(is_chain);
+}
 } // verus!
 fn main() {}
